@@ -23,6 +23,7 @@ def runSweep (payload : String) : String × String × String :=
           | _ => if name == "Push" then s!"{name} D1 self1" else s!"{name} D0"
         else if mode == "nestedro" then s!"{name} D0"
         else if mode == "inert" then s!"{name} {m.zero} Z0"
+        else if mode == "initonly" then s!"{name} ok"
         else s!"{name} D0 S1")
     -- in `frozen` the calls before the final SetReadOnly are all on a read-only instance: Push there is D0
     let outs := if mode == "frozen" then
